@@ -64,7 +64,7 @@ def run(ctx):
         return
     quick = ctx.tier == "quick"
     from props import c02 as _c02
-    _c02.proofs(ctx, "C04.v", deps=("Machine/Work.vo", "CSkel/Run.vo"))   # property theorems: build + Print Assumptions audit
+    _c02.proofs(ctx, "C04.v", deps=("Machine/Work.vo", "Machine/CallTotal.vo", "CSkel/Run.vo"))   # property theorems: build + Print Assumptions audit
     progs = programs(ctx, 150 if quick else 3000)
     levels = ["-O0", "-O3"] if quick else ["-O0", "-O1", "-O2", "-O3"]
     machines, verdicts = [], collections.Counter()
@@ -186,7 +186,7 @@ def run(ctx):
         "programs_certified_in_coq": coq_ok, "programs_certified_extracted": len(machines),
         "compiler_verdicts": dict(verdicts), "levels": levels,
         "states_distribution": sorted(len(m["states"]) for _, _, _, _, m in machines)[::max(1, len(machines) // 12)],
-        "theorems": ["NoSpin.no_spin_step", "NoSpin.no_spin_feed", "NoSpin.yield_progress", "Work.feed_work_linear", "Work.feed_work_consumed", "Work.end_work_bounded", "Work.feed_returns_with_linear_work", "Props/C04.v (8 theorems, Print Assumptions audited on every run)"],
+        "theorems": ["NoSpin.no_spin_step", "NoSpin.no_spin_feed", "NoSpin.yield_progress", "Work.feed_work_linear", "Work.feed_work_consumed", "Work.end_work_bounded", "Work.feed_returns_with_linear_work", "CallTotal.history_returns", "CallTotal.history_work_linear", "Props/C04.v (10 theorems, Print Assumptions audited on every run)"],
         "checker_cmd": "ocaml/machk (extracted NoSpin.nospin_cert) + coqc build/c04/cert_*.v",
     })
     ctx.samples += [{"program": machines[i][0], "level": machines[i][1], "states": len(machines[i][4]["states"]), "result": results[i]} for i in range(0, len(machines), max(1, len(machines) // 6))][:8]
